@@ -94,6 +94,15 @@ let show_bc (b : bhrz03_cert) =
     (int_of_nat b.b_num_points) (String.concat ";" (List.map (fun x -> string_of_int (int_of_nat x)) b.b_rays))
 let show_hc (h : h79_cert) = Printf.sprintf "(%d,%d)" (int_of_nat h.h_affine_dim) (int_of_nat h.h_num_constraints)
 
+(* why two certificates of the same set differ *)
+let cert_diff (a : certs) (b : certs) =
+  if a.hc = b.hc && a.bc.b_affine_dim = b.bc.b_affine_dim && a.bc.b_lin_space_dim = b.bc.b_lin_space_dim
+     && a.bc.b_num_constraints = b.bc.b_num_constraints && a.bc.b_num_points = b.bc.b_num_points
+     && a.bc.b_rays <> b.bc.b_rays && int_of_nat a.bc.b_lin_space_dim > 0 then "lines-present-rays-differ"
+  else if a.hc = b.hc && a.bc.b_affine_dim = b.bc.b_affine_dim && a.bc.b_lin_space_dim = b.bc.b_lin_space_dim
+     && a.bc.b_num_constraints = b.bc.b_num_constraints && a.bc.b_num_points <> b.bc.b_num_points then "points-differ"
+  else "other"
+
 let read_bc c =
   (* b ad lin nc np n r0.. ok k *)
   if next c <> "b" then raise (Syntax "expected b");
@@ -339,7 +348,7 @@ let () =
            incr step;
            let ao = get (int_of_string a) and bo = get (int_of_string b) in
            bump ("same:" ^ ao.w);
-           report (ao.w ^ "/value-dependence") (match equiv ao bo with
+           report (ao.w ^ "/value-dependence:" ^ ao.topo) (match equiv ao bo with
              | Some true -> Ok
              | Some false -> Fail "equal arguments (verified) in different representations gave different results (verified)"
              | None -> Undecided)
@@ -348,7 +357,7 @@ let () =
            (match Hashtbl.find_opt certs (int_of_string a), Hashtbl.find_opt certs (int_of_string b) with
             | Some (Some ca), Some (Some cb) ->
               (match equiv (get (int_of_string a)) (get (int_of_string b)) with
-               | Some true -> report "cert/value" (if ca = cb then Ok else Fail (Printf.sprintf "equal sets, certificates %s and %s" (show_bc ca.bc) (show_bc cb.bc)))
+               | Some true -> report ("cert/value:" ^ (if ca = cb then "" else cert_diff ca cb)) (if ca = cb then Ok else Fail (Printf.sprintf "equal sets (verified), certificates %s and %s" (show_bc ca.bc) (show_bc cb.bc)))
                | _ -> ())
             | Some None, Some None -> ()
             | Some None, Some (Some _) | Some (Some _), Some None -> report "cert/value" (Fail "one representation empty, the other not")
@@ -365,7 +374,7 @@ let () =
                    else Fail (Printf.sprintf "nested polyhedra but a dimension decreased: %s then %s" (show_bc cp.bc) (show_bc cr.bc)));
                  if same then begin
                    bump ("step:" ^ w ^ ":stationary");
-                   report (w ^ "/cert-value") (if cp = cr then Ok else Fail "stationary step but the certificate changed")
+                   report (w ^ "/cert-value:" ^ (if cp = cr then "" else cert_diff cp cr)) (if cp = cr then Ok else Fail (Printf.sprintf "stationary step (verified) but the certificate changed: %s then %s" (show_bc cp.bc) (show_bc cr.bc)))
                  end else begin
                    bump ("step:" ^ w ^ ":changed");
                    report (w ^ "/cert-decrease") (if bhrz03_is_stabilizing cp.bc cr.bc then Ok
